@@ -259,31 +259,26 @@ def _chunk_body(args):
         profile.aggregate(out["agg"], res)
         if res.violation:
             v = {"index": idx, "seed": res.seed, "config": res.config, "ops": res.ops, "violation": res.violation}
-            sig = profile.signature(res.violation)
-            alone = None
-            try:
-                alone = replay(profile, res.config, res.ops)       # in a fresh child: nothing left over from earlier runs
-            except HarnessAbort:
-                raise
-            except Exception:  # noqa
-                alone = None
-            if not (alone is not None and alone.violation and profile.signature(alone.violation) == sig):
-                # The history fails only after the runs that preceded it in this process: the library carries
-                # state at module level.  Report the whole sequence as one replayable trace (it is minimised later).
-                # (each earlier run is replayed under its own floating-point regime)
+            # If the history fails only after the runs that preceded it in this process (the library carries state at
+            # module level), it will not reproduce alone.  Whether it does is decided later, in a clean process; keep
+            # the sequence of this chunk's earlier histories so that it can then be replayed as one trace.
+            sk = codec.dumps(profile.signature(res.violation))
+            seen_sigs = out.setdefault("_sigs", {})
+            seen_sigs[sk] = seen_sigs.get(sk, 0) + 1
+            if seen_sigs[sk] <= 2 and history:
                 combined = []
                 for cfg_j, ops_j in history:
                     combined.append({"op": "new_run", "config": {"strict_fp": bool(cfg_j.get("strict_fp"))}})
                     combined.extend(ops_j)
                 combined.append({"op": "new_run", "config": {"strict_fp": bool(res.config.get("strict_fp"))}})
                 combined.extend(res.ops)
-                v["ops"] = combined
-                v["cross_run"] = True
+                v["ops_with_history"] = combined
             out["violations"].append(v)
         elif idx in sample_set:
             out["samples"].append({"index": idx, "seed": res.seed, "config": res.config, "ops": res.ops})
         history.append((res.config, res.ops))
     faulthandler.cancel_dump_traceback_later()
+    out.pop("_sigs", None)
     return out
 
 
